@@ -45,12 +45,24 @@ class AppLog:
         self.fault = {'message': 0, 'disconnect': 0}
         self.environs = {}
         self.on_event = None             # optional callback(event, sid, arg)
+        self.outcome_by_ord = {}         # open ordinal -> ('ret', v) | ('raise',)
+        self.sid_ord = {}                # sid -> open ordinal (from the X-Verif-Open header)
+        self.ord_sid = {}
 
     def _connect(self, sid, environ):
         self.events.append((self.world.clock.now, 'connect', sid, None))
         self.environs[sid] = environ
         if self.on_event:
             self.on_event('connect', sid, None)
+        o = environ.get('HTTP_X_VERIF_OPEN')
+        if o is not None:
+            self.sid_ord[sid] = int(o)
+            self.ord_sid[int(o)] = sid
+            oc = self.outcome_by_ord.get(int(o))
+            if oc is not None:
+                if oc[0] == 'raise':
+                    raise RuntimeError('scripted connect handler failure')
+                return oc[1]
         if self.connect_outcomes:
             o = self.connect_outcomes.popleft()
             if o[0] == 'raise':
@@ -123,6 +135,9 @@ class AWorld:
 
     def advance(self, dt):
         self.loop.run_until_idle(dt)
+
+    def advance_to(self, t):
+        self.loop.run_until(t)
 
     def next_deadline(self):
         return self.loop.next_timer()
@@ -384,9 +399,5 @@ class AWorld:
                 if not r._gone.done():
                     r._gone.set_result(None)
             self.loop.run_until_idle(0.0)
-        except BaseException:
-            pass
-        try:
-            self.loop.close()
         except BaseException:
             pass
